@@ -147,7 +147,7 @@ MULTI = [("scd", "nooa"), ("scd", "nb"), ("scd", "inverted"), ("authn", "session
          # an assertion carried as advice inside the main one (its attributes are merged into the identity)
          ("advice", "cond-nooa"), ("advice", "cond-nb")]
 # what the sibling occurrences look like: a comfortable copy of the same element, or (for confirmations) another method without data
-MULTI_OTHER = {"scd": ["bearer-ok", "holder-of-key", "sender-vouches-no-data"], "authn": ["ok"], "assertion": ["ok"], "conditions": ["ok"], "scdata": ["ok"], "advice": ["plain", "encrypted"]}
+MULTI_OTHER = {"scd": ["bearer-ok", "holder-of-key", "sender-vouches-no-data"], "authn": ["ok", "no-session-bound"], "assertion": ["ok"], "conditions": ["ok"], "scdata": ["ok"], "advice": ["plain", "encrypted"]}
 
 
 def setup_worker(ctx):
@@ -241,6 +241,9 @@ def run_multi(case, ctx):
             else:
                 v = v.set_attr(v.root, "Method", "urn:oasis:names:tc:SAML:2.0:cm:sender-vouches")
                 v = v.remove(v.find(xk.SAML, "SubjectConfirmationData")[0])
+        if elem == "authn" and other == "no-session-bound":
+            # a sibling statement that carries no bound at all (legal: the attribute is optional)
+            v = v.set_attr(v.root, "SessionNotOnOrAfter", None)
         return v.text()
     seq = {"first": [bad, sibling(1)], "second": [sibling(1), bad], "middle-of-three": [sibling(1), bad, sibling(2)]}[pos]
     # control: the same shape with the in-range element in place of the out-of-range one - tells whether this shape is refused anyway
